@@ -9,6 +9,7 @@ edge of the (constrained) state graph exactly once.
 import json
 import multiprocessing as mp
 import os
+import pickle
 import random
 import time
 from collections import deque
@@ -142,14 +143,27 @@ def random_walks(g, n, maxlen, rng):
     return walks
 
 
+def g_slim(g):
+    """the parts of a Graph the replay workers need (no TLC result object)"""
+    h = Graph()
+    h.states, h.out, h.edges, h.inits = g.states, g.out, g.edges, g.inits
+    return h
+
+
 # ----------------------------------------------------------------------------- sharded replay
 _G = None
 _MK = None
+_GFILE = None
 
 
 def _worker(args):
     wid, chunk, workdir = args
     g = _G
+    if _GFILE:
+        # private copy of the graph: reading the parent's objects from a forked child writes their reference counts and so
+        # copies the parent's pages one by one (copy-on-write), which made large replays 20-40x slower (sys time = user time)
+        with open(_GFILE, "rb") as f:
+            g = pickle.load(f)
     drv = _MK(wid, os.path.join(workdir, "w%d" % wid))
     mism = []
     steps = 0
@@ -188,9 +202,14 @@ def _worker(args):
 def replay(g, walks, make_driver, workdir, nproc=16):
     """make_driver(worker_id, workdir) -> object with reset(state), step(from, act, to) -> None | mismatch text,
     optional finish(state), close().  Returns (steps, mismatches)."""
-    global _G, _MK, _WALKS
+    global _G, _MK, _WALKS, _GFILE
     _G, _MK, _WALKS = g, make_driver, walks
     os.makedirs(workdir, exist_ok=True)
+    _GFILE = None
+    if len(g.edges) > 20000 and min(nproc, tlc.NPROC) > 1:
+        _GFILE = os.path.join(workdir, "graph.pickle")
+        with open(_GFILE, "wb") as f:
+            pickle.dump(g_slim(g), f, protocol=pickle.HIGHEST_PROTOCOL)
     n = len(walks)
     if n == 0:
         return 0, []
